@@ -21,6 +21,7 @@ class Expect:
     verbatim: List[Tuple[str, str]] = field(default_factory=list)   # (kind, exact text)
     fields: List[Tuple[str, Optional[str], List[str]]] = field(default_factory=list)   # (label prefix, key, tokens)
     warned: List[str] = field(default_factory=list)            # tags that must be reported (unknown fields)
+    bare_literals: List[str] = field(default_factory=list)     # first tokens of literal blocks that are the only continuation of their field entry
 
 
 class Gen:
@@ -221,7 +222,11 @@ class Gen:
                 rel.append(' ' * r.choice([0, 2, 4]) + (r.choice(LIT_POOL).replace('{{', '{').replace('}}', '}').strip() or 'x'))
             rel = [x.rstrip() or 'x' for x in rel]
             paras.append(['<LIT>'] + rel)
-            paras.append(self.para_lines(sink, 1, 4))
+            if self.fmt == 'google' and r.random() < .5:
+                self.exp.bare_literals.append(lt)
+            else:
+                # (google: the literal block may be all there is after the introducing line -- its lines are then the only continuation lines)
+                paras.append(self.para_lines(sink, 1, 4))
         elif r.random() < .25:
             paras.append(self.para_lines(sink, 1, 4))
         return paras
@@ -249,7 +254,7 @@ class Gen:
     def fields_epy_rst(self) -> List[str]:
         r, fmt = self.r, self.fmt
         out: List[str] = []
-        pool = [('param', 'a'), ('param', 'b'), ('param', 'args'), ('param', 'kw'), ('type', 'a'), ('return', None), ('rtype', None), ('raise', 'ValueError'),
+        pool = [('param', 'a'), ('param', 'b'), ('param', 'args'), ('param', 'kw'), ('type', 'a'), ('type', 'kw'), ('type', 'args'), ('return', None), ('rtype', None), ('raise', 'ValueError'),
                 ('raise', 'KeyError'), ('note', None), ('see', None), ('author', None), ('since', None), ('keyword', 'extra'), ('custom', 'z'), ('warns', 'UserWarning'),
                 ('yield', None), ('ytype', None),
                 # fields that may be given several times, and field names docutils knows as bibliographic fields (no special meaning here)
@@ -293,9 +298,9 @@ class Gen:
             label = {'param': 'Parameters', 'keyword': 'Parameters', 'type': 'Parameters', 'return': 'Returns', 'rtype': 'Returns', 'raise': 'Raises', 'warns': 'Warns', 'yield': 'Yields', 'ytype': 'Yields',
                      'note': 'Note', 'see': 'See Also', 'author': 'Author', 'since': 'Present Since', **{t: f'Unknown Field: {t}' for t in UNKNOWN_TAGS}}[tag]
             k = key
-            if tag == 'param' and key == 'args':
+            if tag in ('param', 'type') and key == 'args':
                 k = '*args'
-            if tag == 'param' and key == 'kw':
+            if tag in ('param', 'type') and key == 'kw':
                 k = '**kw'
             if tag in ('rtype', 'ytype'):
                 k = None
